@@ -204,7 +204,9 @@ def run_graph(r, n, arcs, do_mcf=True, do_ns=True, labelled=False):
         # unbalanced supplies are infeasible by definition
         sup = [1] + [0] * (n - 1)
         try:
-            res = network_simplex(n, [tuple(a) for a in arcs], sup)
+            res, verdict = guarded(lambda: network_simplex(n, [tuple(a) for a in arcs], sup), 2.0, 5_000_000)
+            if verdict:
+                raise RuntimeError(verdict)
             if res.status.name != "INFEASIBLE":
                 r["violations"].append(viol("network_simplex", "unbalanced_accepted", dict(wit, supplies=sup), f"unbalanced supplies {sup} answered {res.status.name}"))
         except Exception as ex:  # noqa: BLE001
@@ -264,6 +266,8 @@ def _n4_chunk(params, lo, hi):
             run_graph(r, 4, arcs)
             if idx % 8 == 3:
                 run_graph(r, 4, arcs, do_ns=False, labelled=True)
+            if r["counters"]["hangs"] >= 2:
+                break
         if len(r["violations"]) >= 40 or r["counters"]["hangs"] >= 2:
             r["capped"] = True
             break
@@ -310,8 +314,10 @@ def _layered5_chunk(params, lo, hi):
                     errs, label = judge_result("min_cost_flow", res, verdict or err, 5, arcs, sup, table)
                     wit = {"n": 5, "arcs": [list(a) for a in arcs], "source": 0, "sink": 4, "demand": demand, "dict_order": order, "layered5": True}
                     _rec(r, "min_cost_flow", errs, label, table, sup, wit, f"min_cost_flow({graph}, 0, 4, {demand})")
-        if len(r["violations"]) >= 40 or r["counters"]["hangs"] >= 2:
-            r["capped"] = True
+            if len(r["violations"]) >= 40 or r["counters"]["hangs"] >= 2:
+                r["capped"] = True  # checked per case: a tree on which every call hangs must not cost 729 x 4 timeouts
+                break
+        if r["capped"]:
             break
     if not r["samples"] and hi > lo:
         r["samples"].append({"family": "layered5", "k": k})
@@ -329,10 +335,24 @@ def _assign_chunk(params, lo, hi):
         m = [ent[i * cols : (i + 1) * cols] for i in range(rows)]
         r["n"] += 1
         wit = {"cost_matrix": m}
-        try:
-            res = solve_assignment([list(x) for x in m])
-        except Exception as ex:  # noqa: BLE001
-            r["violations"].append(viol("solve_assignment", "raised", wit, f"solve_assignment({m}): {type(ex).__name__}: {ex}"))
+        def call():
+            try:
+                return solve_assignment([list(x) for x in m]), None
+            except Exception as ex:  # noqa: BLE001
+                return None, f"{type(ex).__name__}: {ex}"
+
+        got, verdict = guarded(call, 2.0, 5_000_000)
+        if verdict == "nontermination":
+            r["counters"]["hangs"] += 1
+            r["outcomes"]["solve_assignment:hang"] += 1
+            r["violations"].append(viol("solve_assignment", "nontermination", wit, f"solve_assignment({m}) did not return within the fuel budget"))
+            if r["counters"]["hangs"] >= 2:
+                r["capped"] = True
+                break
+            continue
+        res, err = got
+        if err:
+            r["violations"].append(viol("solve_assignment", "raised", wit, f"solve_assignment({m}): {err}"))
             continue
         vals = []
         if rows <= cols:
